@@ -254,14 +254,23 @@ func (rd *ReorgDetector) loadTrackedHeaders() (err error) {
 	defer rd.trackedBlocksLock.Unlock()
 
 	// Load tracked blocks for all subscribers from the DB
-	if rd.trackedBlocks, err = rd.getTrackedBlocks(); err != nil {
+	trackedBlocks, err := rd.getTrackedBlocks()
+	if err != nil {
 		return fmt.Errorf("failed to get tracked blocks: %w", err)
+	}
+	// Merge them into the current state: a subscriber that subscribed before Start
+	// must keep its (possibly empty) tracked list and its subscription channels
+	for id, hdrs := range trackedBlocks {
+		rd.trackedBlocks[id] = hdrs
 	}
 
 	rd.subscriptionsLock.Lock()
 	defer rd.subscriptionsLock.Unlock()
-	// Go over tracked blocks and create subscription for each tracker
+	// Go over tracked blocks and create subscription for each tracker that has none yet
 	for id := range rd.trackedBlocks {
+		if _, ok := rd.subscriptions[id]; ok {
+			continue
+		}
 		rd.subscriptions[id] = &Subscription{
 			ReorgedBlock:   make(chan uint64),
 			ReorgProcessed: make(chan bool),
